@@ -12,6 +12,8 @@ Tie, on every run:
        match arms (2, 3, 5), in constrained and unconstrained contexts
   scope  every binding construct x {use in scope, use of that name just outside its scope}; theorems of
        Props/C06c.lean over builder C13's Model/Scope.lean, tied by C13's `ssa` protocol run on these programs
+  pos  position family: 12 violation kinds x builder C07's 36 expression contexts; 5 fault kinds + placeholder conflict in
+       the delayed-check positions of builder C13's generic-argument family (both imported read-only)
   pat  deterministic family: every diagnostic gate of check_matching_pattern (+ accepted twins, every object/tuple
        position of a refutable sub-pattern); expected verdict from builder C07's Lean model via drv-c07
   misc deterministic family: kind gates (Model/Gates.lean `kind`), rebinding, builtin/under-constrained values,
